@@ -132,7 +132,8 @@ class Engine(Interp, ExecMixin, EvalMixin, CallMixin, BuiltinMixin):
                 self.havoc_location(st, m, fr)
             if outcome[0] == "normal":
                 res = self.fresh_of(st, parse_T(c.returns), "ret_" + short.replace(".", "_")) if c.returns else NONE
-                env["result"] = res
+                env["result" if "result" not in [p for p, _ in c.params] else "result_"] = res
+                st.ghost.setdefault("effects", []).append(("call:" + short, "call:" + short, list(args), dict(kwargs), res))
                 for e in c.ensures:
                     st.assume(self.truthy(st, self.ev_spec(st, e)))
                 return res
@@ -226,6 +227,11 @@ class Engine(Interp, ExecMixin, EvalMixin, CallMixin, BuiltinMixin):
         return env
 
     def run_path(self, st: State, c: Contract, node, module, qual, exit_hyps):
+        wobj = HeapObj("obj", "World", {"written": Z(T("seq", (T("ref"),)), z3.Empty(z3.SeqSort(Ref))),
+                                         "gen_calls": Z(T("seq", (T("ref"),)), z3.Empty(z3.SeqSort(Ref)))})
+        st.ghost["__world"] = st.alloc(wobj)
+        wobj.fields["written"] = Z(T("seq", (T("ref"),)), st.fresh("world.written", z3.SeqSort(Ref)))
+        wobj.fields["gen_calls"] = Z(T("seq", (T("ref"),)), st.fresh("world.gen_calls", z3.SeqSort(Ref)))
         env = self.param_values(st, c)
         is_ghost = c.kind in ("lemma", "theorem")
         fr0 = self.contract_frame(c, env, c.target)
@@ -307,6 +313,7 @@ class Engine(Interp, ExecMixin, EvalMixin, CallMixin, BuiltinMixin):
                         fv = self.call(st, dv, [fv], {})
                     finally:
                         st.frames.pop()
+                self.body_func = None
                 if fv is f:
                     res = self.run_body(st, f, args, {}, c)
                 else:
@@ -327,7 +334,10 @@ class Engine(Interp, ExecMixin, EvalMixin, CallMixin, BuiltinMixin):
                 st.obj(o).fields[loc.attr] = val
             if c.returns:
                 res = self.coerce_result(st, res, c.returns)
-            env["result"] = res
+            env["result" if "result" not in [p for p, _ in c.params] else "result_"] = res
+            for i, e in enumerate(c.options.get("ensures_effects") or []):
+                self.oblige(st, f"{short}#effects[{i}]", self.truthy(st, self.ev_spec(st, e)), "post", assume_after=False,
+                            meta={"clause": ast.unparse(e)})
             for i, (cls, cc) in enumerate(raise_conds):
                 self.oblige(st, f"{short}#raises-iff[{cls}.{i}]", z3.Not(cc), "raises", assume_after=False)
             for i, e in enumerate(c.ensures):
@@ -398,6 +408,7 @@ def load_all(contract_dir=None, spec_dir=None):
     classes: Dict[str, dict] = {}
     inline_ok = set()
     opaque_ok = set()
+    effect_names = set()
     for d in (contract_dir, os.path.join(front.VERIF, "lemmas"), os.path.join(front.VERIF, "theorems")):
         for path in sorted(glob.glob(os.path.join(d, "*.py"))):
             cs, tables = front.parse_contract_file(path)
@@ -411,6 +422,8 @@ def load_all(contract_dir=None, spec_dir=None):
                 inline_ok.add(k)
             for k in tables.get("OPAQUE") or []:
                 opaque_ok.add(k)
+            for k in tables.get("EFFECTS") or []:
+                effect_names.add(k)
     specs: Dict[str, SpecFn] = {}
     for path in sorted(glob.glob(os.path.join(spec_dir, "*.py"))):
         modname = "spec." + os.path.basename(path)[:-3]
@@ -427,6 +440,7 @@ def load_all(contract_dir=None, spec_dir=None):
     eng = Engine(contracts, classes, specs)
     eng.inline_ok = inline_ok
     eng.opaque_ok = opaque_ok
+    eng.effect_names = effect_names
     eng.auto_lemma_index = {}
     for c in contracts.values():
         if c.kind in ("lemma", "assumed") and c.options.get("auto_for"):
